@@ -9,6 +9,18 @@ The test file under /verif/bounded is injected into the package with `go test -o
 import json, os, subprocess, sys, tempfile, time, shutil
 
 CFG = {
+ 'C03': [dict(pkg='./store', test='TestVerifC03HashHistories', src='/verif/bounded/c03_hash_history_test.go', dst='/repo/store/zz_verif_c03_test.go',
+             out='VERIF_C03_OUT', timeout='1500s', bad='violations', cases='violation_classes',
+             obligation='bounded:C03.hash-invariant',
+             what='Inv: after every accepted write the stored hash of every edge equals the XOR of the CRCs of its node points, its edge points and the hashes of its child edges (recomputed independently); refused writes change no hash'),
+         dict(pkg='./data', test='TestVerifC03CRC', src='/verif/bounded/c03_crc_test.go', dst='/repo/data/zz_verif_c03crc_test.go',
+             out='VERIF_C03CRC_OUT', timeout='600s', bad='mismatches', cases='first_mismatches',
+             obligation='bounded:C03.crc-definition',
+             what='Point.CRC equals the documented definition, ignores Data/Tombstone/Origin and depends on time, type, key, text, value')],
+ 'C15': [dict(pkg='./client', test='TestVerifC15ExportImport', src='/verif/bounded/c15_export_import_test.go', dst='/repo/client/zz_verif_c15_test.go',
+             out='VERIF_C15_OUT', timeout='1500s', bad='mismatches', cases='mismatch_classes',
+             obligation='bounded:C15.export-import',
+             what='export then import (with and without id preservation) reproduces shape, types, points and edge points; ids replaced consistently incl. nodeID references; marker on the top description only; deleted nodes absent; YAML round trip of every corpus string')],
  'C10': dict(pkg='./data', test='TestVerifC10Roundtrip', src='/verif/bounded/c10_roundtrip_test.go', dst='/repo/data/zz_verif_c10_test.go',
              out='VERIF_C10_OUT', timeout='900s', bad='mismatches', cases='first_mismatches',
              obligation='bounded:C10.encode-decode-diff-merge',
@@ -19,10 +31,95 @@ CFG = {
              what='contracts N: Decode/MergePoints/MergeEdgePoints never panic and I: points of undeclared types change nothing'),
 }
 
+def run_leg(prop, tier, seed, c):
+    """runs one harness; returns (result dict or None, log, go test exit code)"""
+    scr = tempfile.mkdtemp(prefix='verif-bounded-', dir='/var/tmp')
+    try:
+        ov = os.path.join(scr, 'ov.json'); out = os.path.join(scr, 'out.json')
+        json.dump({'Replace': {c['dst']: c['src']}}, open(ov, 'w'))
+        env = dict(os.environ, GOFLAGS='-mod=mod', GOPROXY='off', GOSUMDB='off', GOTOOLCHAIN='local',
+                   VERIF_TIER=tier, VERIF_SEED=str(seed))
+        env[c['out']] = out
+        cmd = 'ulimit -v 25000000; exec go test -p 1 -overlay %s -vet=off -timeout %s -count=1 -run %s %s' % (ov, c['timeout'], c['test'], c['pkg'])
+        p = subprocess.run(['bash', '-c', cmd], cwd='/repo', env=env, capture_output=True, text=True)
+        log = (p.stdout + p.stderr)[-6000:]
+        res = None
+        if os.path.exists(out) and os.path.getsize(out) > 0:
+            res = json.load(open(out))
+        return res, log, p.returncode
+    finally:
+        shutil.rmtree(scr, ignore_errors=True)
+
+def multi(prop, tier, seed, legs, as_leg):
+    """several harnesses for one property (C03), or a bounded leg of a mixed check (--as-leg FILE: C15)"""
+    t0 = time.time()
+    os.makedirs('/verif/replays/%s' % prop, exist_ok=True)
+    if not as_leg:
+        for f in os.listdir('/verif/replays/%s' % prop):
+            os.remove(os.path.join('/verif/replays/%s' % prop, f))
+    known = [k for k in json.load(open('/verif/known_findings.json'))['findings'] if k['property'] == prop and k['status'] == 'open']
+    rc = 0; violations = 0
+    agg = {'evaluations': 0, 'distinct_nontrivial': 0, 'rule': [], 'samples': [], 'exhaustive': True, 'legs': {}}
+    for c in legs:
+        res, log, grc = run_leg(prop, tier, seed, c)
+        name = c['obligation']
+        if res is None:
+            rp = '/verif/replays/%s/%s-harness-error.json' % (prop, name.split('.')[-1])
+            json.dump({'obligation': name, 'status': 'no result', 'output': log}, open(rp, 'w'), indent=1)
+            print('VIOLATION property=%s replay=%s no-failing-input-found' % (prop, rp))
+            print('  failed obligation: %s: the bounded harness produced no result (build error / timeout / crash); output in the replay file' % name)
+            rc = 1; violations += 1; agg['exhaustive'] = False
+            agg['legs'][name] = 'NO RESULT'
+            continue
+        bad = int(res.get(c['bad'], 0))
+        if bad > 0 or grc != 0:
+            cases = res.get(c['cases']) or []
+            unlisted = []
+            for cs in cases:
+                txt = json.dumps(cs, sort_keys=True)
+                hit = [k for k in known if k.get('match') and k['match'] in txt]
+                if hit:
+                    print('KNOWN-FINDING: property=%s %s %s' % (prop, hit[0]['obligation'], hit[0]['what']))
+                else:
+                    unlisted.append(cs)
+            if unlisted or not cases:
+                rp = '/verif/replays/%s/%s-failing-inputs.json' % (prop, name.split('.')[-1])
+                json.dump({'obligation': name, 'status': 'failed on the real code', 'contracts': c['what'], 'failing_cases': unlisted[:20], 'count': bad,
+                           'how_to_replay': 'cd /repo && %s=/dev/stdout VERIF_TIER=%s go test -overlay <{"Replace":{"%s":"%s"}}> -vet=off -run %s %s' % (c['out'], tier, c['dst'], c['src'], c['test'], c['pkg']),
+                           'output': log[-2000:]}, open(rp, 'w'), indent=1)
+                print('VIOLATION property=%s replay=%s%s' % (prop, rp, '' if unlisted else ' no-failing-input-found'))
+                print('  failed obligation: %s (%d failing cases; inputs in the replay file)' % (name, bad))
+                rc = 1; violations += max(bad, 1)
+        agg['evaluations'] += int(res.get('evaluations', 0))
+        agg['distinct_nontrivial'] += int(res.get('distinct_nontrivial', 0))
+        agg['rule'].append('[%s] %s' % (name, res.get('rule', '')))
+        agg['samples'] += [str(x) for x in (res.get('samples') or [])][:3]
+        agg['exhaustive'] = agg['exhaustive'] and bool(res.get('exhaustive', False))
+        agg['legs'][name] = {k: v for k, v in res.items() if k not in ('samples', 'rule')}
+    if as_leg:
+        json.dump({'kind': 'bounded (enumeration over the stated finite domain; NOT a proof)', 'result': agg, 'violations': violations}, open(as_leg, 'w'))
+        sys.exit(rc)
+    cov = {'evaluations': agg['evaluations'], 'distinct_nontrivial': agg['distinct_nontrivial'],
+           'rule': 'BOUNDED stand-in, not a proof. ' + ' || '.join(agg['rule']), 'samples': agg['samples'] or ['none'],
+           'exhaustive': agg['exhaustive'], 'contracts_evaluated': [c['what'] for c in legs],
+           'checker_cmd': '/verif/bin/check %s --tier %s' % (prop, tier), 'functions_under_contract': [], 'obligations_proved': 0,
+           'why_bounded': 'the property is an invariant over whole histories of writes and graph shapes; the contracts that would carry it (hash propagation over a ghost table with a path-parity argument) were not built, so the real store is exercised over every history of a stated bounded family with an independent recomputation',
+           'harness_result': agg['legs']}
+    ev = {'property_id': prop, 'tier': tier, 'seed': seed, 'level': 'exploration', 'coverage': cov,
+          'assumptions': ['bounded: only the stated finite domain is explored; histories, graph shapes and strings outside it are not covered'],
+          'wall_s': round(time.time() - t0, 2), 'violations': violations}
+    json.dump(ev, open('/verif/evidence/%s.json' % prop, 'w'), indent=1)
+    print('bounded %s: tier=%s evaluations=%d distinct_nontrivial=%d exhaustive=%s violations=%d (%.1fs)' % (
+        prop, tier, cov['evaluations'], cov['distinct_nontrivial'], cov['exhaustive'], violations, time.time() - t0))
+    sys.exit(rc)
+
 def main():
     prop, tier = sys.argv[1], sys.argv[2]
     seed = int(os.environ.get('VERIF_SEED', '1'))
     c = CFG[prop]
+    if isinstance(c, list):
+        as_leg = sys.argv[4] if len(sys.argv) > 4 and sys.argv[3] == '--as-leg' else None
+        multi(prop, tier, seed, c, as_leg)
     t0 = time.time()
     scr = tempfile.mkdtemp(prefix='verif-bounded-', dir='/var/tmp')
     try:
